@@ -4,7 +4,8 @@ from .. import common as C
 from .. import h1, h2, drv, scen
 from ..scen import stmt, wrap_fn
 
-LOCKS = ["absent", "valid100", "bare", "corrupt", "empty", "wrongkey", "negative", "noninteger", "valid5000000000"]
+LOCKS = ["absent", "valid100", "bare", "corrupt", "empty", "wrongkey", "negative", "noninteger", "valid5000000000",
+         "conflict", "dupkey"]
 
 
 def trees(structured_src):
@@ -61,7 +62,7 @@ def run(rep, tier, seed, model_ok):
     C.build_repo()
     rep.cov["rule"] = ("the full product use_cache {omitted, true, false} x structured {omitted, true, false} x extensions "
                        "{omitted, [rs]} x lock class {absent, tool-written, bare key, corrupt, empty, wrong key, negative, "
-                       "non-integer, > u32} x mode {check, edit} x tree {with missing references, complete} through the real "
+                       "non-integer, > u32, unresolved merge conflict, duplicated key} x mode {check, edit} x tree {with missing references, complete} through the real "
                        "binary; plus missing/invalid configuration, missing / non-directory source dir, empty in-scope set; "
                        "defaults read through the hook library. Non-trivial = an edit run that inserts")
     scs = []
